@@ -7,6 +7,7 @@ import (
 	"bufio"
 	"bytes"
 	"context"
+	"encoding/hex"
 	"errors"
 	"fmt"
 	"io"
@@ -55,6 +56,19 @@ func verifDir() string {
 // readBase reads a base input. `@<path>` is relative to /verif (minimised corpus inputs),
 // anything else relative to the repository under test.
 func readBase(path string) ([]byte, error) {
+	// gen:rep:<hex pattern>:<n> — a synthetic base: the pattern repeated n times (deep nesting seeds)
+	if strings.HasPrefix(path, "gen:rep:") {
+		ps := strings.Split(path[8:], ":")
+		if len(ps) != 2 {
+			return nil, fmt.Errorf("bad synthetic base %q", path)
+		}
+		pat, err := hex.DecodeString(ps[0])
+		n, err2 := strconv.Atoi(ps[1])
+		if err != nil || err2 != nil || len(pat) == 0 || n < 1 || n*len(pat) > maxWhole {
+			return nil, fmt.Errorf("bad synthetic base %q", path)
+		}
+		return bytes.Repeat(pat, n), nil
+	}
 	var p string
 	if strings.HasPrefix(path, "@") {
 		p = filepath.Join(verifDir(), path[1:])
@@ -139,7 +153,7 @@ func keyFromFrames(fns []string, reqFormat, kind string) string {
 	topFn, fmtPkg := "", ""
 	for _, fn := range fns {
 		if !strings.HasPrefix(fn, fqMod) || strings.HasPrefix(fn, fqMod+"internal/verifharness") ||
-			strings.HasPrefix(fn, fqMod+"internal/recoverfn") {
+			strings.HasPrefix(fn, fqMod+"internal/recoverfn.Run") {
 			continue
 		}
 		if topFn == "" {
@@ -250,6 +264,15 @@ func groupFor(format string) (*decode.Group, error) {
 //	error/other:<what>     an error that is not a FormatsError
 //	panic:<fmt>:<fn>:<kind>
 func decodeObs(input []byte, group *decode.Group, format string, force bool, inArg any) (obs string) {
+	obs, _ = decodeObsDeep(input, group, format, force, inArg)
+	return obs
+}
+
+// decodeObsDeep also reports whether a collected error was raised so deep that the captured stack
+// (recoverfn stackSizeLimit = 256 PCs) is saturated. Every collected FormatError is rendered the way
+// pkg/interp/decode.go reports it (FormatError.Value(): message and the stack trace frames, which is what
+// `._error`, `dv` and the all-formats-failed error show) — a fault in reporting the error is a crash too.
+func decodeObsDeep(input []byte, group *decode.Group, format string, force bool, inArg any) (obs string, deep bool) {
 	defer func() {
 		if r := recover(); r != nil {
 			obs = classifyRecovered(r, format)
@@ -269,7 +292,7 @@ func decodeObs(input []byte, group *decode.Group, format string, force bool, inA
 			if errors.As(err, &ioe) {
 				what = "ioerror"
 			}
-			return "error/other:" + what
+			return "error/other:" + what, false
 		}
 		k = len(fe.Errs)
 		for i, e := range fe.Errs {
@@ -278,6 +301,13 @@ func decodeObs(input []byte, group *decode.Group, format string, force bool, inA
 			}
 			if e.Err == nil {
 				ord = false
+			}
+			if len(e.Stacktrace.PCs) >= 256 {
+				deep = true
+			}
+			_ = e.Error()
+			if e.Format != nil {
+				_ = e.Value()
 			}
 		}
 	}
@@ -303,16 +333,16 @@ func decodeObs(input []byte, group *decode.Group, format string, force bool, inA
 		cls = "partial"
 	}
 	if dv == nil && err == nil {
-		return "bad:nil-nil"
+		return "bad:nil-nil", deep
 	}
 	obs = fmt.Sprintf("%s/%d/%d/%s/%d", cls, n, k, i, v)
 	if !ord {
 		obs += "/ord0"
 	}
-	return obs
+	return obs, deep
 }
 
-// ---------------------------------------------------------------- the interpreter path (fq -d F [-o force=true] '., tovalue, (dv? // .)')
+// ---------------------------------------------------------------- the interpreter path (fq -d F [-o force=true] '., tovalue, (dv? // .), (._error? // .)')
 
 type nullFS struct{}
 
@@ -350,7 +380,7 @@ func (o *interpOS) Args() []string {
 	if o.force {
 		a = append(a, "-o", "force=true")
 	}
-	return append(a, `., tovalue, (dv? // .)`)
+	return append(a, `., tovalue, (dv? // .), (._error? // .)`)
 }
 func (o *interpOS) ConfigDir() (string, error)   { return "/config", nil }
 func (o *interpOS) FS() fs.FS                    { return nullFS{} }
@@ -563,7 +593,7 @@ func workerMain() {
 func (s *wstate) begin(jobID string, idx int, op string, single bool) {
 	s.mu.Lock()
 	s.jobID, s.idx, s.op, s.started, s.active = jobID, idx, op, time.Now(), true
-	if single {
+	if single && idx >= 0 {
 		s.flushHist()
 		fmt.Fprintf(s.w, "B\t%s\t%d\t%s\n", jobID, idx, op)
 		s.w.Flush()
@@ -659,6 +689,14 @@ func runJob(st *wstate, jobID string, from int, single bool, text string) {
 		st.end(text, obs, false, single)
 		return
 	}
+	if strings.HasPrefix(text, "allfmt ") {
+		runAllFmt(st, jobID, from, single, text)
+		return
+	}
+	if strings.HasPrefix(text, "fields ") {
+		runFields(st, jobID, from, single, text)
+		return
+	}
 	if !strings.HasPrefix(text, "batch ") {
 		c, err := parseCase(text)
 		if err != nil {
@@ -698,22 +736,149 @@ func runJob(st *wstate, jobID string, from int, single bool, text string) {
 	}
 	ms := batchMembers(b, len(base))
 	for idx := from; idx < len(ms); idx++ {
-		c := caseSpec{kind: "d", path: b.path, mut: ms[idx], format: b.format, force: b.force}
-		st.begin(jobID, idx, c.op(), single)
-		var obs string
-		input, err := applyMut(base, ms[idx])
+		runOneOfMany(st, jobID, idx, single, base, b.path, ms[idx], b.format, g, b.force, b.seed)
+	}
+}
+
+// runOneOfMany: one decode case of a multi-case job (histogrammed unless it panics); the case is repeated
+// through the interpreter path for the 1/interpMod sample and whenever its error was raised deep.
+func runOneOfMany(st *wstate, jobID string, idx int, single bool, base []byte, path, mut, format string, g *decode.Group, force bool, seed uint64) {
+	c := caseSpec{kind: "d", path: path, mut: mut, format: format, force: force}
+	st.begin(jobID, idx, c.op(), single)
+	var obs string
+	deep := false
+	input, err := applyMut(base, mut)
+	if err != nil {
+		obs = "badcase:mut"
+	} else {
+		obs, deep = decodeObsDeep(input, g, format, force, nil)
+	}
+	st.end(c.op(), obs, true, single)
+	if err == nil && (deep || selected(seed^0x5bd1e995, interpMod, path, format, force, "i:"+mut)) {
+		ci := c
+		ci.kind = "i"
+		st.begin(jobID, idx, ci.op(), single)
+		st.end(ci.op(), interpObs(input, format, force), false, single)
+	}
+}
+
+// allfmt <path> <mut> <f|n>: one input decoded with every registered format and the probe group
+func allFormatGroups() []string {
+	var names []string
+	for _, f := range interp.DefaultRegistry.MustAll().Formats {
+		names = append(names, f.Name)
+	}
+	sort.Strings(names)
+	return append(names, "probe")
+}
+
+func runAllFmt(st *wstate, jobID string, from int, single bool, text string) {
+	ws := strings.Fields(text)
+	fail := func(why string) {
+		st.mu.Lock()
+		fmt.Fprintf(st.w, "C\t%s\tbadcase:%s\n", text, why)
+		st.mu.Unlock()
+	}
+	if len(ws) != 4 || (ws[3] != "f" && ws[3] != "n") {
+		fail("parse")
+		return
+	}
+	base, err := loadBase(ws[1])
+	if err != nil {
+		fail("read")
+		return
+	}
+	names := allFormatGroups()
+	for idx := from; idx < len(names); idx++ {
+		g, err := groupFor(names[idx])
 		if err != nil {
-			obs = "badcase:mut"
-		} else {
-			obs = decodeObs(input, g, b.format, b.force, nil)
+			continue
 		}
-		st.end(c.op(), obs, true, single)
-		// a 1/interpMod sample of the same cases also goes through the interpreter path
-		if err == nil && selected(b.seed^0x5bd1e995, interpMod, b.path, b.format, b.force, "i:"+ms[idx]) {
-			ci := c
-			ci.kind = "i"
-			st.begin(jobID, idx, ci.op(), single)
-			st.end(ci.op(), interpObs(input, b.format, b.force), false, single)
+		runOneOfMany(st, jobID, idx, single, base, ws[1], ws[2], names[idx], g, ws[3] == "f", 1)
+	}
+}
+
+// fields <path> <format> <f|n> <seed> <mod> <max fields> <patterns>: field-aware length saturation. The unchanged file
+// is decoded with <format>; every leaf field of at most 64 bits of the root buffer (at most <max fields>,
+// in buffer order) is overwritten with each of the given patterns (letters of z,o,1,m,s — family.go) and decoded again.
+
+func leafFields(base []byte, g *decode.Group, max int) (fs [][2]int64) {
+	defer func() { _ = recover() }()
+	dv, _, _ := decode.Decode(context.Background(), bitio.NewBitReader(base, -1), g, decode.Options{IsRoot: true})
+	if dv == nil {
+		return nil
+	}
+	seen := map[[2]int64]bool{}
+	_ = dv.WalkRootPreOrder(func(v *decode.Value, _ *decode.Value, _ int, _ int) error {
+		if _, ok := v.V.(*decode.Compound); ok {
+			return nil
+		}
+		r := [2]int64{v.Range.Start, v.Range.Len}
+		if r[1] < 1 || r[1] > 64 || r[0] < 0 || r[0]+r[1] > int64(len(base))*8 || seen[r] {
+			return nil
+		}
+		seen[r] = true
+		fs = append(fs, r)
+		return nil
+	})
+	sort.Slice(fs, func(i, j int) bool {
+		if fs[i][0] != fs[j][0] {
+			return fs[i][0] < fs[j][0]
+		}
+		return fs[i][1] < fs[j][1]
+	})
+	if len(fs) > max {
+		fs = fs[:max]
+	}
+	return fs
+}
+
+func runFields(st *wstate, jobID string, from int, single bool, text string) {
+	ws := strings.Fields(text)
+	fail := func(why string) {
+		st.mu.Lock()
+		fmt.Fprintf(st.w, "C\t%s\tbadcase:%s\n", text, why)
+		st.mu.Unlock()
+	}
+	if len(ws) != 8 || (ws[3] != "f" && ws[3] != "n") || strings.Trim(ws[7], "zo1ms") != "" {
+		fail("parse")
+		return
+	}
+	fieldPatterns := strings.Split(ws[7], "")
+	seed, e1 := strconv.ParseUint(ws[4], 10, 64)
+	mod, e2 := strconv.Atoi(ws[5])
+	max, e3 := strconv.Atoi(ws[6])
+	if e1 != nil || e2 != nil || e3 != nil {
+		fail("parse")
+		return
+	}
+	base, err := loadBase(ws[1])
+	if err != nil {
+		fail("read")
+		return
+	}
+	g, err := groupFor(ws[2])
+	if err != nil {
+		fail("format")
+		return
+	}
+	force := ws[3] == "f"
+	st.begin(jobID, -1, "fields-scan "+text, single)
+	fs := leafFields(base, g, max)
+	st.mu.Lock()
+	st.active = false
+	st.mu.Unlock()
+	idx := 0
+	for _, f := range fs {
+		for _, p := range fieldPatterns {
+			m := fmt.Sprintf("f%d:%d:%s", f[0], f[1], p)
+			if !selected(seed, mod, ws[1], ws[2], force, m) {
+				continue
+			}
+			if idx >= from {
+				runOneOfMany(st, jobID, idx, single, base, ws[1], m, ws[2], g, force, seed)
+			}
+			idx++
 		}
 	}
 }
